@@ -143,3 +143,97 @@ def target_guard(c: Term, pol: bool, mkeys: List[str], loop_elems: Dict[str, Ter
             if a[0] == "attr" and a[2] == "market_id" and b[0] == "attr" and b[2] == "market_id" and key(b[1]).startswith("self.target_market"):
                 return True
     return False
+
+
+MUTATORS = ("update", "append", "pop", "clear", "setdefault", "extend", "remove", "add", "discard", "insert", "popitem")
+
+
+def check_instance_state(ctx: Ctx, cname: str) -> int:
+    """every container an event object changes in place through `self` is created per instance in
+    __init__ (a class-level container would be shared by all rules of that class)"""
+    cls = ctx.program.cls(cname)
+    attrs: Dict[str, Any] = {}
+    for m in cls.methods.values():
+        if m.name == "__init__":
+            continue
+        for p in ctx.paths(m.qualname):
+            for e in p.walk_events(True):
+                t = None
+                if e.kind in ("store", "del") and e.attr is None and e.base is not None:
+                    t = strip_ver(e.base)
+                elif e.kind == "call" and e.recv is not None and e.name in MUTATORS:
+                    t = strip_ver(e.recv)
+                if t is not None and t[0] == "attr" and t[1] == ("sym", "self"):
+                    attrs.setdefault(t[2], (m, e))
+    init = ctx.program.lookup_method(cname, "__init__")
+    n = 0
+    for a, (m, e) in sorted(attrs.items()):
+        n += 1
+        ok = init is not None
+        found = "no __init__"
+        if init is not None:
+            ps = [p for p in ctx.paths(init.qualname) if p.exit[0] != "raise"]
+            missing = [p for p in ps if not [s for s in p.walk_events() if s.kind == "store" and s.attr == a and key(strip_ver(s.base)) == "self"]]
+            ok = bool(ps) and not missing
+            found = "created in __init__" if ok else f"{init.qualname} does not bind self.{a}: the container found is the one on the class, shared by every {cname}"
+        ctx.check(ok, m, e.node, f"{cname}.{a} is changed in place, so each instance owns its own container", f"self.{a} = <fresh container> in __init__", found)
+    return n
+
+
+def check_target_table(ctx: Ctx, cname: str) -> None:
+    """<cname>.setup enters every configured target: target_markets[name] = simulator.name2market[name]"""
+    from ..terms import normalise
+
+    f = ctx.func(f"{cname}.setup")
+    src = ("sub", ("sym", "settings"), ("const", "targetMarkets"))
+    table = ("attr", ("sym", "self"), "target_markets")
+
+    def market_of(n: Term) -> Term:
+        return ("sub", ("attr", ("attr", ("sym", "self"), "simulator"), "name2market"), n)
+
+    seen = 0
+    for p in ctx.paths(f.qualname):
+        if p.exit[0] == "raise":
+            continue
+        seen += 1
+        verdicts: List[Tuple[bool, str, Any]] = []
+        for e in p.events:
+            if e.kind == "loop":
+                el = ("sym", f"{e.target[0]}∈{e.loopid}") if e.target else None
+                for bp in e.paths:
+                    sts = [s for s in bp.walk_events(True) if (s.kind == "store" and s.attr is None and strip_ver(s.base) == table) or (s.kind == "call" and s.recv is not None and strip_ver(s.recv) == table and s.name in MUTATORS)]
+                    if bp.exit[0] == "raise":
+                        continue
+                    if not sts:
+                        continue  # a loop that only validates
+                    ok = strip_ver(e.iter) == src and len(sts) == 1 and sts[0].kind == "store" and strip_ver(sts[0].index) == el and strip_ver(sts[0].value) == market_of(el) and bp.exit[0] in ("fall", "continue")
+                    verdicts.append((ok, "; ".join(f"{short_(s)}" for s in sts) or f"nothing entered on [{bp.describe()[:80]}]", e.node))
+            elif e.kind == "call" and e.recv is not None and strip_ver(e.recv) == table and e.name in MUTATORS:
+                arg = normalise(strip_ver(e.args[0])) if e.args else NONE
+                ok = e.name == "update" and arg[0] == "comp" and arg[1] == "dictcomp" and len(arg[3]) == 1 and len(arg[3][0][0]) == 1 and not arg[3][0][2] and arg[3][0][1] == src
+                if ok:
+                    b = ("bound", arg[3][0][0][0])
+                    ok = arg[2] == ("tuple", (b, market_of(b)))
+                verdicts.append((ok, short_(e), e.node))
+            elif e.kind == "store" and e.attr == "target_markets" and key(strip_ver(e.base)) == "self":
+                arg = normalise(strip_ver(e.value))
+                ok = arg[0] == "comp" and arg[1] == "dictcomp" and len(arg[3]) == 1 and len(arg[3][0][0]) == 1 and not arg[3][0][2] and arg[3][0][1] == src
+                if ok:
+                    b = ("bound", arg[3][0][0][0])
+                    ok = arg[2] == ("tuple", (b, market_of(b)))
+                verdicts.append((ok, short_(e), e.node))
+            elif e.kind == "store" and e.attr is None and strip_ver(e.base) == table:
+                verdicts.append((False, short_(e), e.node))
+        if not verdicts:
+            ctx.violated(f, f.node, f"{cname}: every configured target market is entered in the target table", "for name in settings['targetMarkets']: self.target_markets[name] = simulator.name2market[name]", "the table is never filled on " + p.describe()[:100])
+        for ok, found, node in verdicts:
+            ctx.check(ok, f, node, f"{cname}: every configured target market is entered in the target table under its own name", "for name in settings['targetMarkets']: self.target_markets[name] = simulator.name2market[name]", found)
+    ctx.require(seen >= 1, f"{cname}.setup: no normal path")
+
+
+def short_(e: Event) -> str:
+    from ..kit import short
+
+    if e.kind == "store":
+        return f"{short(e.target)} = {short(e.value)}"
+    return short(e.term)[:200]
